@@ -78,8 +78,33 @@ func runC06(c *core.Ctx) {
 							continue
 						}
 						if ex0.Features["merged-key"] > 0 {
-							// how many times a merged field's resolver is invoked is not stated by any property
-							c.Count("skipped_merged_key_document")
+							// how many times a merged field's resolver is invoked is not stated by any property, so the reference
+							// comparison is skipped; what IS stated holds for any multiplicity: where an error is reported the
+							// data is null. Every call is made to fail at its second invocation only (a stateful resolver).
+							c.Count("merged_key_document")
+							for _, ck := range expectedCalls(s, g, ex0, nc.Cfg.Strat) {
+								var id int
+								dot := strings.IndexByte(ck, '.')
+								fmt.Sscanf(ck[:dot], "%d", &id)
+								faults := map[world.CallKey]world.FaultKind{{Node: id, Field: ck[dot+1:]}: world.FaultSecond}
+								c.Eval()
+								root, run, err := world.BuildRoot(nc.Cfg, g)
+								if err != nil {
+									panic(core.EngineError{Msg: err.Error()})
+								}
+								run.Faults = faults
+								o := world.Observe(root, run, text, op, vars)
+								if o.Panic != nil {
+									c.Violation("panic", map[string]string{"site": o.Panic.Site, "class": o.Panic.Class}, worldCase{Config: nc.Name, Graph: gi, Query: text, Op: op, Faults: []string{ck + ":second-call"}, Observed: o})
+									continue
+								}
+								if msg := errorWithoutNull(o); msg != "" {
+									c.Outcome("error-without-null")
+									c.Violation("error-without-null", map[string]string{"strategy": nc.Cfg.Strat.String(), "fault": "second-call"}, worldCase{Config: nc.Name, Graph: gi, Query: text, Op: op, Vars: vars, Faults: []string{ck + ":second-call"}, Observed: o, Diff: msg})
+								} else {
+									c.Outcome("merged-key-invariant-ok")
+								}
+							}
 							continue
 						}
 						calls := expectedCalls(s, g, ex0, nc.Cfg.Strat)
@@ -173,6 +198,11 @@ func runC06(c *core.Ctx) {
 								o := world.Observe(root, run, text, op, vars)
 								kd, msg := compareExpect(s, g, ex, o, nc.Cfg.Strat, false)
 								if kd == "" {
+									if m2 := errorWithoutNull(o); m2 != "" {
+										kd, msg = "error-without-null", m2
+									}
+								}
+								if kd == "" {
 									c.Outcome("agree")
 									continue
 								}
@@ -200,4 +230,69 @@ func runC06(c *core.Ctx) {
 	if !completed {
 		c.Cap("deadline reached before the neighbourhood was completed")
 	}
+}
+
+// errorWithoutNull checks what holds whatever the reference says: the position an error entry addresses is null in the data
+// (or lies below a null). "fragment at L:C" segments (finding C06-F1) are skipped; a path whose last segment is not a key of the
+// object it addresses is an argument error and speaks about the field one level up.
+func errorWithoutNull(o *world.Obs) string {
+	if !o.HasData {
+		return ""
+	}
+	for _, e := range o.Errors {
+		raw, _ := e["path"].([]interface{})
+		var path []interface{}
+		for _, seg := range raw {
+			if s, ok := seg.(string); ok && strings.HasPrefix(s, "fragment at ") {
+				continue
+			}
+			path = append(path, seg)
+		}
+		if len(path) == 0 {
+			continue
+		}
+		var cur interface{} = o.Data
+		for i, seg := range path {
+			if cur == nil {
+				break // below a null: fine
+			}
+			switch tv := cur.(type) {
+			case map[string]interface{}:
+				k, _ := seg.(string)
+				nxt, has := tv[k]
+				if !has {
+					if i == len(path)-1 {
+						return fmt.Sprintf("error path %v names %q which is no key of the object at that position: if it is an argument, the field holds a value although its argument was refused", raw, k)
+					}
+					cur = nil
+					continue
+				}
+				cur = nxt
+			case []interface{}:
+				idx := -1
+				switch n := seg.(type) {
+				case int:
+					idx = n
+				case int64:
+					idx = int(n)
+				case float64:
+					idx = int(n)
+				}
+				if idx < 0 || idx >= len(tv) {
+					return fmt.Sprintf("error path %v: index %v outside the list of %d", raw, seg, len(tv))
+				}
+				cur = tv[idx]
+			default:
+				if i == len(path)-1 {
+					// an argument name below a leaf position: the field one level up must be null, and it is not
+					return fmt.Sprintf("error path %v ends in an argument of a field whose value is %v, not null", raw, cur)
+				}
+				return fmt.Sprintf("error path %v runs through the leaf value %v", raw, cur)
+			}
+		}
+		if cur != nil {
+			return fmt.Sprintf("an error is reported at %v but the data there is %v, not null", raw, cur)
+		}
+	}
+	return ""
 }
